@@ -153,7 +153,8 @@ impl<'h> FindMatchesImpl<'h> {
         if matched.is_empty() {
             return;
         }
-        let end = matched.span().end;
+        // The span of the match is relative to the offset, advance_to expects absolute positions.
+        let end = matched.span().end + self.offset;
         self.advance_to(end);
     }
 
@@ -180,11 +181,14 @@ impl<'h> FindMatchesImpl<'h> {
     /// If the new position is less than the current position of the char_indices iterator, the
     /// function returns the current position of the char_indices iterator.
     pub(crate) fn advance_to(&mut self, position: usize) -> usize {
+        // The given position is a position in the haystack like the positions of the matches.
+        // The positions of the char_indices iterator are relative to the offset.
+        let position = position.saturating_sub(self.offset);
         if position < self.last_position {
             // The new position is less than the current position of the char_indices iterator.
             // The iterator is advanced by one character and the next character is not returned by
             // the iterator.
-            return self.last_position;
+            return self.last_position + self.offset;
         }
         let mut new_position = 0;
         let mut line_start_offsets = vec![];
@@ -207,7 +211,7 @@ impl<'h> FindMatchesImpl<'h> {
         }
         self.last_char = last_char;
         self.last_position = new_position;
-        new_position
+        new_position + self.offset
     }
 
     /// Retrieve the total offset of the char indices iterator in bytes.
